@@ -1200,7 +1200,8 @@ def fragment_data_dict(dd, chunk_size):
     # generate chunks with given chunk size
     chunks_dict = collections.defaultdict(list)
     for chrname in ndd.keys():
-        positions = sorted(ndd[chrname])
+        # add_info may be None; order sites without it first at equal position
+        positions = sorted(ndd[chrname], key=lambda pa: (pa[0], '' if pa[1] is None else pa[1]))
         end = chunk_size
         chunk_index = 0
         chunks_dict[chrname].append([])
